@@ -118,6 +118,26 @@ func guardedValid(v ssa.Value, b *ssa.BasicBlock) bool {
 	if guardedValid1(v, b) {
 		return true
 	}
+	// whatever the shape of the test (`if v.Kind() != Ptr { break }`, a switch
+	// over the kind, a range test on it): the facts of the fixpoint at b exclude
+	// Kind(v) == Invalid, and only a valid Value has another kind
+	if kindFactValid(v, b) {
+		return true
+	}
+	// a parameter that lives in a cell because a function literal captures it
+	// (`next := func() … { … v.Len() … }`): the cell is written once, at entry, so
+	// every load of it is the parameter; a test of one load speaks for all
+	if ld, ok := v.(*ssa.UnOp); ok && ld.Op == token.MUL {
+		if al, isAl := ld.X.(*ssa.Alloc); isAl && al.Referrers() != nil {
+			if _, stable := paramBehind(ld); stable {
+				for _, ref := range *al.Referrers() {
+					if l2, ok := ref.(*ssa.UnOp); ok && l2 != ld && l2.Op == token.MUL && (guardedValid1(l2, b) || kindFactValid(l2, b)) {
+						return true
+					}
+				}
+			}
+		}
+	}
 	// another load of the same field of the same object, tested before (h.value.CanAddr() && … h.value.Pointer())
 	if ld, ok := v.(*ssa.UnOp); ok && ld.Op == token.MUL {
 		if fa, ok := ld.X.(*ssa.FieldAddr); ok {
@@ -196,7 +216,27 @@ func guardedValid1(v ssa.Value, b *ssa.BasicBlock) bool {
 	return false
 }
 
+// validityW: the world the validity analysis runs in (the guards are plain
+// functions of SSA values; the kind facts come from the world's fixpoints).
+var validityW *World
+
+// kindFactValid: at the entry of b the interval facts say Kind(v) != Invalid.
+func kindFactValid(v ssa.Value, b *ssa.BasicBlock) bool {
+	w := validityW
+	if w == nil || b == nil || b.Parent() == nil || b.Parent().Blocks == nil || !w.inPkg(b.Parent()) {
+		return false
+	}
+	f := w.flow(b.Parent())
+	env := f.At(b)
+	if env == nil {
+		return false
+	}
+	s, ok := env["pure:(reflect.Value).Kind("+f.term(v).Key()+")"]
+	return ok && !s.Empty() && !s.Contains(0)
+}
+
 func (w *World) ruleNoGetterOnInvalid(r *Report, rule string) {
+	validityW = w
 	va := &validity{w: w, params: map[*ssa.Parameter]bool{}, fields: map[string]bool{}, rets: map[*ssa.Function]bool{}, retPar: map[*ssa.Function]map[int]bool{}}
 	va.fixpoint(true)
 	// second phase: follow only what comes out of the fields found above
